@@ -13,10 +13,15 @@ TABLE = {
                             'assumed with a bounded stand-in: each pass eliminates its constructs (AST scan of the generated code with '
                             'the NoNative predicate and dynamic operator counts); per-pass shape obligations are not built in this revision'),
     'C06': dict(level='other', bounded=[('c06_lastwriter.py', 'last-writer oracle on executed programs + fixed-point check on every graph'),
-                                        ('rt_worklist.py', 'worklist fixed-point contract on small graphs')],
-                explanation='proved: the worklist fixed point of cfg.GraphVisitor (shared with C07); assumed with bounded stand-ins: '
-                            'the reaching-definitions transfer function equations (checked at run time on every graph) and the '
-                            'end-to-end last-writer soundness'),
+                                        ('rt_worklist.py', 'worklist fixed-point contract on small graphs'),
+                                        ('rt_rd.py', 'run-time evaluation of the transfer-function contract and of the assumed _NodeState contracts')],
+                explanation='proved: the worklist fixed point of cfg.GraphVisitor (shared with C07); the reaching-definitions transfer '
+                            'function (in = join of the predecessors\' out, gen created once per node with one definition per bound/global '
+                            'non-deleted name and per parameter, out = gen | (in - kill), revisit iff out changed, nothing else touched) and '
+                            'the refinement lemma (visit_node satisfies the abstract contract the fixed-point proof relies on, with stable = '
+                            'the RD equation); a syntactic frame obligation shows states are immutable once built; assumed with bounded '
+                            'stand-ins: the _NodeState value type operations (|, -, ==, construction; run-time checked) and the end-to-end '
+                            'last-writer soundness'),
     'C08': dict(level='other', bounded=[('c08_activity.py', 'symtable comparison per function + dynamic read/write log per executed statement'),
                                         ('rt_scope.py', 'run-time evaluation of the Scope / recorder contracts on random scope chains')],
                 explanation='proved: the Scope algebra (finalize: a block scope reports everything but its isolated names to its parent, '
